@@ -6,6 +6,7 @@ mod cmapio;
 mod fmt;
 mod geo;
 mod grid;
+mod gris;
 mod k2;
 mod s2;
 mod s3;
@@ -49,6 +50,9 @@ fn step(sess: &mut Sess, toks: &[&str]) -> String {
         return r;
     }
     if let Some(r) = grid::step(sess, toks) {
+        return r;
+    }
+    if let Some(r) = gris::step(sess, toks) {
         return r;
     }
     if toks[0] == "load" {
